@@ -1485,6 +1485,10 @@ void extend_row_impl(
 
     if (option == boundary_option::extend_constant)
     {
+        // a source without rows has no edge row to repeat (row_begin(0) and row_begin(height() - 1) do not exist)
+        if (src_view.height() == 0)
+            return;
+
         for (std::ptrdiff_t i = 0; i < result_view.height(); i++)
         {
             if(i >= extend_count_ && i < extend_count_ + src_view.height())
